@@ -38,7 +38,7 @@ ASSUMPTIONS = [
     "flows without @meta tags (no *_LOG events); action names end in 'Action' and contain neither 'Start' nor 'Stop'",
     "each action instance is started by exactly one `send $ref.Start()` element (programs built from start/await/activate/when/groups)",
     "external events are plain events or <Action>Started/<Action>Finished events for action uids the interpreter emitted",
-    "no clean-up of old instances during a case (histories run within the 5 s window)",
+    "clean-up of old instances runs only where a history has a clock tick (20 % of the histories); the stretch of a trace across a clean-up is not replayed by the operation machine",
 ]
 
 EVENTS = ["E0", "E1", "E2"]
@@ -189,8 +189,8 @@ def _g_race(rng, prog):
     else:
         a = None
         x = ["start_act", rng.choice(SCRIPTS)]
-    form = rng.choice(["ref", "ref", "ref", "ref", "or", "await", "when", "stop", "stop", "fin", "fin", "twin"])
-    if form == "twin" and a is None:
+    form = rng.choice(["ref", "ref", "ref", "ref", "or", "await", "when", "stop", "stop", "fin", "fin", "twin", "handover", "handover", "handover"])
+    if form in ("twin", "handover") and a is None:
         form = "ref"
     tail = [["match", rng.choice(EVENTS + ["Never"])]]
     if rng.random() < 0.3:
@@ -205,6 +205,13 @@ def _g_race(rng, prog):
         body.append(["match", e])
         tie = [["start", rk], ["start", rs]] if rng.random() < 0.5 else [["start", rs], ["start", rk]]
         tie.append(["match", rng.choice(EVENTS + ["Never"])])
+    elif form == "handover":
+        # two activators of `a`; the one that started it (its parent) ends first, the other one holds it on and ends later —
+        # with a clock tick in between the ended parent is old enough to be cleaned up while `a` still points to it
+        end2 = rng.choice([v for v in EVENTS if v != e])
+        killer = [["activate", a], ["match", e]]
+        sender = [["activate", a], ["match", end2]]
+        tie = [["start", rk], ["start", rs], ["match", "Never"]]
     elif form == "ref":
         first = [["start_as", rk, "k"], ["start", rs]]
         if rng.random() < 0.25:
@@ -231,7 +238,7 @@ def _g_race(rng, prog):
         tie = [["start", rs], ["match", "Never"]]
     new[rk], new[rs] = killer, sender
     kinds[rk] = kinds[rs] = kinds[rt] = "sub"
-    if rng.random() < 0.3 and form not in ("stop", "fin"):
+    if rng.random() < 0.3 and form not in ("stop", "fin", "handover"):
         tie = tie + [["match", rng.choice(EVENTS)]]
     new[rt] = tie
     # a living flow usually holds the activation already
@@ -239,7 +246,9 @@ def _g_race(rng, prog):
     if form in ("stop", "fin"):
         ins = [["start", rk], ["start", rt]] if rng.random() < 0.6 else [["start", rt], ["start", rk]]
     end = None
-    if a is not None and rng.random() < 0.9:
+    if form == "handover":
+        end = end2
+    elif a is not None and rng.random() < 0.9:
         if rng.random() < 0.6:
             # a flow of its own holds the activation and ends on another event: the genuine (last) activator
             end = rng.choice([v for v in EVENTS if v != e])
@@ -288,6 +297,10 @@ def gen_history(rng, tier, prog=None):
             h.append({"act": "Finished", "k": rng.randrange(0, 6), "pick": rng.choice(["any", "live", "stopped"])})
         else:
             h.append({"act": "Started", "k": rng.randrange(0, 6), "pick": rng.choice(["any", "live", "stopped"])})
+    if rng.random() < 0.2:
+        # let the interpreter's clock pass the 5 s after which ended instances are cleaned up (once or twice per history)
+        for _ in range(rng.choice([1, 1, 2])):
+            h.insert(rng.randrange(1, len(h) + 1), {"tick": rng.choice([6, 6, 20])})
     race = (prog or {}).get("race")
     if race and rng.random() < 0.6:
         # the race event, later the event that ends the flow holding the activation (if there is one), then some more
@@ -295,6 +308,8 @@ def gen_history(rng, tier, prog=None):
         h.insert(i, {"ev": race["event"]})
         j = rng.randrange(i + 1, len(h) + 1)
         h.insert(j, {"ev": race.get("end") or rng.choice(EVENTS)})
+        if rng.random() < (0.8 if race["form"] == "handover" else 0.25):
+            h.insert(rng.randrange(i + 1, j + 1), {"tick": rng.choice([6, 20])})   # the clean-up runs when the next event arrives
         h.append({"ev": rng.choice(used) if used else rng.choice(EVENTS)})
     return h
 
@@ -378,6 +393,8 @@ class _RecList(list):
     """records are numbered in the order of their START so that consecutive ones can be paired"""
     def append(self, rec):
         rec.setdefault("seq", len(self))
+        if REC is not None:
+            rec.setdefault("step", REC.step)
         list.append(self, rec)
 
 
@@ -708,6 +725,19 @@ def run_impl(case):
         return obs
     rnd = random.Random(case.get("seed", 0))
     o_choice = sm.random.choice
+    # the interpreter's clock (`datetime.now()` in statemachine.py / flows.py): `{"tick": n}` items let n seconds pass, so
+    # that `_clean_up_state` (instances that ended more than 5 s ago) runs INSIDE a history
+    import datetime as _dt
+    from nemoguardrails.colang.v2_x.runtime import flows as _fl
+
+    class _Clock(_dt.datetime):
+        off = _dt.timedelta(0)
+
+        @classmethod
+        def now(cls, tz=None):
+            return _dt.datetime.now(tz) + cls.off
+
+    o_dt_sm, o_dt_fl = sm.datetime, _fl.datetime
     REC = R = _Rec()
     started, stopped, finished_rx = [], set(), set()   # action uids in order of their Start event
 
@@ -750,6 +780,8 @@ def run_impl(case):
 
     try:
         sm.random.choice = lambda seq: seq[rnd.randrange(len(seq))]
+        if any("tick" in h for h in case["hist"]):
+            sm.datetime = _fl.datetime = _Clock
         with contextlib.redirect_stdout(io.StringIO()):
             st = State(flow_states=[], flow_configs=cfg)
             sm.initialize_state(st)
@@ -759,6 +791,11 @@ def run_impl(case):
                 break
             if "ev" in h:
                 bad = step({"type": h["ev"]}, h)
+                continue
+            if "tick" in h:
+                _Clock.off += _dt.timedelta(seconds=h["tick"])
+                obs["steps"].append({"in": h, "skipped": True})
+                obs["ticked"] = True
                 continue
             if "auto" in h:
                 waited = sorted(n for n, hs in st.event_matching_heads.items() if n in EVENTS and hs)
@@ -786,6 +823,7 @@ def run_impl(case):
         obs["init_exc"] = type(e).__name__ + ":" + str(e)[:200]
     finally:
         sm.random.choice = o_choice
+        sm.datetime, _fl.datetime = o_dt_sm, o_dt_fl
         REC = None
     obs["records"] = R.records
     obs["ends"] = R.ends
@@ -805,8 +843,9 @@ _STATUS_PATH = {("WAITING", "STARTING"): ["STARTING"], ("WAITING", "STARTED"): [
                 ("WAITING", "STOPPING"): ["STARTING", "STOPPING"]}
 
 
-def _gap_request(prev, nxt):
-    """prev / nxt: {"flows": [...], "actions": [...]} snapshots. Returns (request, expected, problem)."""
+def _gap_request(prev, nxt, cleanup_ok=False):
+    """prev / nxt: {"flows": [...], "actions": [...]} snapshots. Returns (request, expected, problem).
+    cleanup_ok: the two calls belong to different steps of a history with clock ticks (`_clean_up_state` may have run)."""
     pf = {f["uid"]: f for f in prev["flows"]}
     nf = {f["uid"]: f for f in nxt["flows"]}
     pa = {a["uid"]: a for a in prev["actions"]}
@@ -818,7 +857,9 @@ def _gap_request(prev, nxt):
     ops = []
     newflows, newactions = [], []
     if any(u not in nf for u in pf):
-        return None, None, "an instance disappeared between two calls (clean-up is assumed not to run inside a case)"
+        if cleanup_ok:
+            return None, None, None   # clean-up is not an operation of the machine: the stretch is not replayed
+        return None, None, "an instance disappeared between two calls of one step (clean-up only runs at the start of a step)"
     # new instances
     for f in nxt["flows"]:
         if f["uid"] not in pf:
@@ -889,7 +930,8 @@ def _gap_items(obs):
         if a.get("post") is None or a.get("exc") or b.get("seq") != a.get("seq", -1) + 1:
             continue
         items.append(_gap_request({"flows": a["post"]["flows"], "actions": a["post"]["actions"]},
-                                  {"flows": b["pre"]["flows"], "actions": b["pre"]["actions"]}))
+                                  {"flows": b["pre"]["flows"], "actions": b["pre"]["actions"]},
+                                  cleanup_ok=bool(obs.get("ticked")) and a.get("step") != b.get("step")))
     return items
 
 
@@ -1419,6 +1461,12 @@ def tags(case, obs):
         t.append("conflict-cluster")
     if any("auto" in h for h in case.get("hist", [])):
         t.append("schedule-directed")
+    if any("tick" in h for h in case.get("hist", [])):
+        t.append("clock-tick")
+    if case.get("prog", {}).get("race"):
+        t.append("race:" + case["prog"]["race"]["form"])
+    if any(r["op"] == "startflow" and r.get("res") and r["res"]["r"] == "ignored" and r["info"]["known"] for r in obs.get("records", [])):
+        t.append("startflow-of-ended-sender-dropped")
     t = sorted(set(t)) + ["flows:" + str(len(case.get("prog", {}).get("flows", {})))]
     shared = any(a["count"] >= 2 for s in obs.get("steps", []) for a in s.get("actions", []))
     if shared:
